@@ -39,7 +39,7 @@ def generate(rng: random.Random, tier: str):
         n = rng.randint(4, 12 if thorough else 9)
         cases.append({'kind': 'slice', 'shape': [n, rng.randint(4, n), rng.randint(4, n)] if rng.random() < 0.4 else [n, n, n],
                       'profile': rng.choice(['rect', 'rect', 'smoothed', 'gauss', 'asym_neg', 'asym_pos']), 'fwhm': rng.choice([1.0, 2.0, 3.0, 4.0, 6.0, 8.0]),
-                      'rotation': rng.choice(['identity', 'identity', 'axis', 'generic']), 'shift': rng.choice([0.0, 0.0, 1.0, -2.0, 0.5]),
+                      'rotation': rng.choice(['identity', 'identity', 'axis', 'generic', 'tilt', 'tilt']), 'shift': rng.choice([0.0, 0.0, 1.0, -2.0, 0.5]),
                       'seed': rng.randrange(1 << 30)})
     for _ in range(300 if thorough else 60):
         dim = rng.choice([2, 3])
@@ -87,6 +87,8 @@ def run_slice(case, drv) -> Outcome:
         rot = None
     elif case['rotation'] == 'axis':
         rot = Rotation.from_euler('xyz'[rng.randrange(3)], rng.choice([90.0, 180.0, 270.0]), degrees=True)
+    elif case['rotation'] == 'tilt':  # the slice normal is tilted about one in-plane axis
+        rot = Rotation.from_euler('xy'[rng.randrange(2)], rng.choice([30.0, 45.0, -20.0, 12.5, -60.0, rng.uniform(-60, 60)]), degrees=True)
     else:
         rot = Rotation.from_euler('xyz', [rng.uniform(0, 90), rng.uniform(0, 90), rng.uniform(0, 90)], degrees=True)
     cfg = f'volume {shape} profile {case["profile"]} fwhm {case["fwhm"]} rotation {case["rotation"]} shift {case["shift"]}'
@@ -149,6 +151,38 @@ def run_slice(case, drv) -> Outcome:
             dev = min(devs)
             if dev > 0.05:
                 viol = viol or {'signature': 'slice:profile-shape', 'what': f'{cfg}: weights of the centre pixel along the normal deviate from the normalised profile by {dev:.3f}'}
+    # ---- the whole weight matrix (read off the forward operator with unit-impulse volumes) for slices whose in-plane axes stay
+    # aligned with the volume (identity, tilts about one in-plane axis): the weight of voxel v for slice pixel p is
+    # profile(d_normal) (1-|d_y|)+ (1-|d_x|)+ with d = R^T (p - v), p the rotated and shifted pixel position about the volume
+    # centre, normalised to sum one - profile-weighted average along the normal with in-plane linear interpolation
+    if viol is None and case['rotation'] in ('identity', 'tilt') and math.prod(shape) <= 1000:
+        z, y, x = shape
+        nvox = z * y * x
+        (out,) = op(torch.eye(nvox).reshape(nvox, *shape))
+        got = out[0, :, 0].permute(1, 2, 0).reshape(mx, mx, *shape).double()
+        rmat = rot.as_matrix().double() if rot is not None else torch.eye(3, dtype=torch.float64)
+        centre = torch.tensor([z / 2 - 0.5, y / 2 - 0.5, x / 2 - 0.5], dtype=torch.float64)
+        yy, xx = torch.meshgrid(torch.arange((y - mx) // 2, (y - mx) // 2 + mx), torch.arange((x - mx) // 2, (x - mx) // 2 + mx), indexing='ij')
+        pp = torch.stack([torch.zeros_like(yy).double() + z / 2 - 0.5 + case['shift'], yy.double(), xx.double()], -1)
+        pp = (rmat @ (pp - centre)[..., None])[..., 0] + centre
+        vv = torch.stack(torch.meshgrid(torch.arange(z), torch.arange(y), torch.arange(x), indexing='ij'), -1).double()
+        dd = (rmat.T @ (pp[:, :, None, None, None, :] - vv)[..., None])[..., 0]
+        want = prof.inner(dd[..., 0].float()).double() * (1 - dd[..., 1].abs()).clamp_min(0) * (1 - dd[..., 2].abs()).clamp_min(0)
+        want = want * (dd[..., 0].abs() <= (w_impl or 0) + 1)
+        tot = want.sum((-1, -2, -3))
+        # pixels whose whole support lies inside the volume: the analytic weights of a pixel near the edge miss the part outside
+        mass_all = prof.inner(torch.arange(-(w_impl or 0) - 1, (w_impl or 0) + 2).float()).double().sum()
+        inside = (got.sum((-1, -2, -3)) - 1).abs() < 1e-4
+        full = inside & (tot > 0)
+        if bool(full.any()):
+            dev = ((got - want / tot.clamp_min(1e-30)[..., None, None, None]).abs().amax((-1, -2, -3)))[full]
+            # a pixel is only comparable if none of its analytic support is cut off by the volume: compare those where the
+            # operator's weights sum to one and the analytic support is complete (same total as the pixel with the largest total)
+            complete = tot[full] >= tot[full].max() * (1 - 1e-6)
+            if bool(complete.any()) and float(dev[complete].max()) > 2e-3:
+                viol = {'signature': f'slice:weights:{case["rotation"]}',
+                        'what': f'{cfg}: the weights of a slice pixel differ from profile(d_normal) x in-plane linear interpolation about the rotated pixel position by '
+                                f'{float(dev[complete].max()):.3f} (largest weight {float(got.max()):.2f})'}
     return Outcome(key=('slice', tuple(shape), case['profile'], case['fwhm'], case['rotation'], case['shift']), corr=corr, viol=viol,
                    branches=[f'profile:{case["profile"]}', f'fwhm:{case["fwhm"]}', f'rot:{case["rotation"]}', f'w:{w_impl}'],
                    sample={**case, 'w_impl': w_impl, 'w_model': m['w'], 'test_grid': [float(v) for v in grid_t.flatten()][:6], 'mass_outside': outside})
